@@ -101,8 +101,24 @@ class UpdateBlock(Contract):
             st.assume(nn >= 0, nn * nn == msum(mmap(lambda x, i, j: x * x, a)))
             self.nn[id(a)] = nn
             return nn
+        if name in ("torch.linalg.norm", "torch.linalg.matrix_norm", "tensorflow.linalg.norm") and is_mat(args[0]):
+            a = args[0]
+            order = args[1] if len(args) > 1 else kwargs.get("ord", kwargs.get("p"))
+            fro2 = msum(mmap(lambda x, i, j: x * x, a))
+            nn = fresh("norm", z3.RealSort())
+            if order in (None, "fro") or (order == 2 and min(a.r, a.c) == 1 and name != "torch.linalg.matrix_norm"):
+                st.assume(nn >= 0, nn * nn == fro2)           # Frobenius norm; the 2-norm of a vector / single-row matrix equals it
+            elif order == 2:
+                # spectral norm of a matrix with several rows and columns: only sigma_max^2 <= ||.||_F^2 <= min(r,c) * sigma_max^2 is assumed
+                st.assume(nn >= 0, nn * nn <= fro2, fro2 <= min(a.r, a.c) * nn * nn)
+            else:
+                raise Unsupported(f"norm of order {order!r}")
+            self.nn[id(a)] = nn
+            return nn
         if name in ("torch.finfo", "numpy.finfo"):
-            return Obj("finfo", {"tiny": self.tiny})
+            eps = Real("machine_epsilon")
+            st.assume(eps > 0)
+            return Obj("finfo", {"tiny": self.tiny, "eps": eps, "smallest_normal": self.tiny})
         if name in ("torch.sum", "tensorflow.reduce_sum") and is_mat(args[0]):
             return msum(args[0])
         if name == "tensorflow.multiply" and is_mat(args[0]) and is_mat(args[1]):
@@ -200,12 +216,10 @@ class UpdateBlock(Contract):
         import numpy as np
         shp = self.shapes[0]
         rng = np.random.default_rng(0)
-        A = torch.tensor(rng.normal(size=shp)); P = torch.tensor(rng.normal(size=shp))
-        src = inspect.getsource(pe.PytorchEngine.train_step)
-        # run only the update loop of the real source on concrete tensors
         from ..pyvc.core import Source
         s = Source.load(self.source)
         loop = self.body(s.func(self.function))[0]
+        code = compile(ast.Module(body=[loop], type_ignores=[]), "<update-loop>", "exec")
 
         class Pm:
             def __init__(self):
@@ -213,14 +227,23 @@ class UpdateBlock(Contract):
 
             def parameters(self):
                 return self.p
-        me = type("E", (), {})()
-        me.predictor_model = Pm()
-        me.base = type("B", (), {"alpha": 0.7})()
-        env = {"torch": torch, "self": me, "dW_LA": [A], "dW_LP": [P]}
-        exec(compile(ast.Module(body=[loop], type_ignores=[]), "<update-loop>", "exec"), env)
-        G = me.predictor_model.p[0].grad
-        orth = float(((G + 0.7 * A) * A).sum())
-        bad = abs(orth) > 1e-9 * max(1.0, float((A * A).sum()))
+        # run only the update loop of the real source on concrete float32 tensors (the engine's dtype); adversary gradients of ordinary and of
+        # small magnitude (a regulariser larger than the smallest normal number switches the projection off for small gradients)
+        bad, orth, A, P, scale = False, 0.0, None, None, 1.0
+        A0, P0 = rng.normal(size=shp), rng.normal(size=shp)
+        for scale in (1.0, 1e-3, 1e-6):
+            A = torch.tensor(A0 * scale, dtype=torch.float32)
+            P = torch.tensor(P0, dtype=torch.float32)
+            me = type("E", (), {})()
+            me.predictor_model = Pm()
+            me.base = type("B", (), {"alpha": 0.7})()
+            env = {"torch": torch, "self": me, "dW_LA": [A], "dW_LP": [P]}
+            exec(code, env)
+            G = me.predictor_model.p[0].grad
+            orth = float(((G.double() + 0.7 * A.double()) * A.double()).sum())
+            bad = abs(orth) > 1e-4 * float(P.double().norm()) * float(A.double().norm())
+            if bad:
+                break
         return {"confirmed": bool(bad), "key": "C16:torch.train_step:frobenius_projection",
-                "what": f"torch update block on a {shp} tensor: <g + alpha*dLA, dLA>_F = {orth:.3g} (must be 0)",
+                "what": f"torch update block on a {shp} float32 tensor with |dLA| ~ {scale:g}: <g + alpha*dLA, dLA>_F = {orth:.3g} (must be 0 up to rounding)",
                 "replay": {"shape": list(shp), "A": A.tolist(), "P": P.tolist(), "alpha": 0.7, "orthogonality_residual": orth}}
